@@ -193,7 +193,9 @@ func (f *feedBuf) drainUntil(markerKey string, markerVal []byte, timeout time.Du
 	defer f.mu.Unlock()
 	for {
 		for i, e := range f.evs {
-			if string(e.Key) == markerKey && strings.Contains(string(e.Value), string(markerVal)) {
+			// an event of the marker key that arrives without a value still ends the batch: whether the feed
+			// should have carried the value is judged on the batch, not here
+			if string(e.Key) == markerKey && (len(e.Value) == 0 || strings.Contains(string(e.Value), string(markerVal))) {
 				out := append([]sgbucket.FeedEvent{}, f.evs[:i]...)
 				f.evs = append([]sgbucket.FeedEvent{}, f.evs[i+1:]...)
 				return out, nil
